@@ -134,3 +134,16 @@ package serveruser
 //@ func buildState(users map[string]*appctlpb.User, stats *sourceUserCacheStats) (s *state)
 //@   trusted sorts the users by name with sort.Slice, skips unusable entries, derives credentials with SHA-256
 //@   ensures s != nil && fresh(s) && wfUsers(s) && len(s.users) <= len(users)
+
+//@ // No credential from nothing (C05): a user record yields a credential only if it carries a
+//@ // hashed password or a non-empty password - a name alone (whose hash anybody could compute)
+//@ // never becomes a registered credential.
+//@ func buildCredential(user *appctlpb.User, name string) (c [32]byte, err error)
+//@   property C05
+//@   mode int
+//@   posts_only
+//@   partial
+//@   noframe
+//@   may_panic
+//@   ensures [C05] err == nil ==> user != nil && ((user.HashedPassword != nil && *user.HashedPassword != "") || (user.Password != nil && *user.Password != ""))
+
